@@ -396,8 +396,13 @@ fn run_history(ctx: &mut Ctx, r: &mut Rng) {
 }
 
 fn run_training(ctx: &mut Ctx, r: &mut Rng) {
-    let spec = gen_net(r, ctx.tier == Tier::Thorough);
-    let iters = r.range(3, ctx.tier.n(12, 30) as usize);
+    // one case in six: wide layers on a batch of 16..24 rows (activations and cost arrays of a thousand values and more)
+    let wide = r.chance(1, 6);
+    let spec = if wide { gen_wide_net(r) } else { gen_net(r, ctx.tier == Tier::Thorough) };
+    if wide {
+        ctx.count("training_runs_with_wide_layers", 1);
+    }
+    let iters = if wide { r.range(3, 5) } else { r.range(3, ctx.tier.n(12, 30) as usize) };
     let desc = format!("{} iterations={}", spec.describe(), iters);
     let res = guard(|| train_ledger(&spec, iters, r.next()));
     match res {
